@@ -172,7 +172,7 @@ theorem C17_build_plain (r : Regs) (fuel : Nat) (kind : RegKind) (name : String)
     rw [hfc] at h
     simp only [Except.ok.injEq] at h
     subst h
-    exact ⟨sig, rfl, rfl, rfl⟩
+    exact ⟨sig, rfl, rfl, by simp⟩
 
 /-! ### the shipped configurations, the packaged copies, the registered ids -/
 
